@@ -47,7 +47,7 @@ const RUNTIME_ITEMS: [(&'static str, &'static str); 4] = [
     (
         "Z",
         // (after a splice that changed the length of a list, every index of the list may hold another value)
-        "function(a,b){if(a===true)return true;if(a)return a[b]||a.length===true||undefined}",
+        "function(a,b){if(a===true)return true;if(a)return a.length===true?true:a[b]}",
     ),
     ("P", "function(a){return typeof a==='function'?a:()=>{}}"),
 ];
